@@ -124,13 +124,22 @@ def execute(sc):
                 seen.append(chunks[ci])
                 res.steps += 1
                 res.log.add("acc", tuple(chunks[ci].shape))
-                if sc["interim_store"] and j == len(delivered) // 2 and pooled(seen, dim).shape[0] >= 2:
-                    mvn.store(delete_stats=False, bessel=False)
+                # STORE(bessel) is an operation of the history like any other: with
+                # delete_stats=False it may happen any number of times, in any place
+                for _ in range(2):
+                    if not (sc["interim_store"] and pooled(seen, dim).shape[0] >= 2 and tape.choose(3) == 2):
+                        break
+                    b = tape.choose(2) == 1
+                    mvn.store(delete_stats=False, bessel=b)
                     part = pooled(seen, dim)
                     if not np.allclose(mvn.mean.double().numpy(), part.mean(0), **tol_for(sc, part)):
-                        res.violate("interim.mean", "interim store(delete_stats=False) does not give the mean of the frames accumulated so far")
+                        res.violate("interim.mean", f"store(delete_stats=False, bessel={b}) after {len(seen)} chunks does not give the mean of the frames accumulated so far", bessel=b)
+                        return res
+                    if not np.allclose(mvn.std.double().numpy(), part.std(0, ddof=1 if b else 0), **std_tol(sc, part)):
+                        res.violate("interim.std", f"store(delete_stats=False, bessel={b}) after {len(seen)} chunks does not give the std of the frames accumulated so far", bessel=b)
                         return res
                     res.bump("probe.interim_store")
+                    res.log.add("store", b)
             if len(chunks) > len(tensors):
                 res.bump("probe.partitioned")
             if delivered != sorted(delivered):
